@@ -22,12 +22,20 @@ import (
 	"golang.org/x/tools/go/ssa/ssautil"
 )
 
+type fmtLeaf struct {
+	cons    dset     // values of the element this branch applies to
+	formats []string // the Fprintf formats applied to the element on this branch, in order
+}
+
+// listFormatter is the abstract form of formatInts / formatRunes: per element, a decision over the element's value selecting
+// the format(s) written for it; a separator ends every element and the last one is truncated away.
 type listFormatter struct {
 	name      string
-	elemFmt   string // per-element format without the separator
+	leaves    []fmtLeaf
 	sep       string
 	truncates bool
 	pos       token.Pos
+	elemFmt   string // format of the first branch, for reporting
 }
 
 type tmplSet struct {
@@ -125,7 +133,7 @@ func loadTemplates(c *Ctx, rule string) *tmplSet {
 	return ts
 }
 
-// extractListFormatter reads `for _, v := range xs { fmt.Fprintf(&b, F, v) }; if len(xs) > 0 { b.Truncate(b.Len() - K) }`.
+// extractListFormatter reads `for _, v := range xs { <decision on v> fmt.Fprintf(&b, F, v) }; if len(xs) > 0 { b.Truncate(b.Len() - K) }`.
 func extractListFormatter(p *packages.Package, fo *types.Func) *listFormatter {
 	var fd *ast.FuncDecl
 	AllFuncDecls(p, func(f *ast.FuncDecl) {
@@ -133,64 +141,110 @@ func extractListFormatter(p *packages.Package, fo *types.Func) *listFormatter {
 			fd = f
 		}
 	})
-	if fd == nil || fd.Body == nil {
+	if fd == nil || fd.Body == nil || fd.Type.Params == nil || len(fd.Type.Params.List) != 1 {
 		return nil
 	}
 	info := p.TypesInfo
+	param := info.Defs[fd.Type.Params.List[0].Names[0]]
 	lf := &listFormatter{pos: fd.Pos()}
-	format := ""
+	var loop *ast.RangeStmt
 	trunc := int64(-1)
 	ast.Inspect(fd.Body, func(n ast.Node) bool {
-		call, ok := n.(*ast.CallExpr)
-		if !ok {
-			return true
-		}
-		if f2, ok := objOf(info, call.Fun).(*types.Func); ok && f2.Pkg() != nil && f2.Pkg().Path() == "fmt" && (f2.Name() == "Fprintf" || f2.Name() == "Sprintf") {
-			idx := 0
-			if f2.Name() == "Fprintf" {
-				idx = 1
+		switch x := n.(type) {
+		case *ast.RangeStmt:
+			if id, ok := ast.Unparen(x.X).(*ast.Ident); ok && info.Uses[id] == param && loop == nil {
+				loop = x
 			}
-			if len(call.Args) > idx {
-				if s, ok := constStr(info, call.Args[idx]); ok {
-					format = s
-				}
-			}
-		}
-		if sel, ok := call.Fun.(*ast.SelectorExpr); ok && sel.Sel.Name == "Truncate" && len(call.Args) == 1 {
-			if b, ok := ast.Unparen(call.Args[0]).(*ast.BinaryExpr); ok && b.Op == token.SUB {
-				if v, ok := constInt(info, b.Y); ok {
-					trunc = v
+		case *ast.CallExpr:
+			if sel, ok := x.Fun.(*ast.SelectorExpr); ok && sel.Sel.Name == "Truncate" && len(x.Args) == 1 {
+				if b, ok := ast.Unparen(x.Args[0]).(*ast.BinaryExpr); ok && b.Op == token.SUB {
+					if v, ok := constInt(info, b.Y); ok {
+						trunc = v
+					}
 				}
 			}
 		}
 		return true
 	})
-	if format == "" {
+	if loop == nil || loop.Value == nil {
 		return nil
 	}
-	// the separator is the trailing non-verb text after the last verb
-	i := strings.LastIndexAny(format, "abcdefghijklmnopqrstuvwxyzABCDEFGHIJKLMNOPQRSTUVWXYZ")
-	// find end of the last verb: scan for last '%'
-	pct := strings.LastIndex(format, "%")
-	if pct < 0 {
+	ev, _ := info.Defs[loop.Value.(*ast.Ident)].(*types.Var)
+	if ev == nil {
 		return nil
 	}
-	j := pct + 1
-	for j < len(format) && strings.ContainsRune("+-# 0123456789.", rune(format[j])) {
-		j++
+	leaves, _, err := flattenBlock(info, loop.Body.List, []*types.Var{ev})
+	if err != nil || len(leaves) == 0 {
+		return nil
 	}
-	j++ // the verb letter
-	_ = i
-	// anything after the verb that closes a quote belongs to the element (e.g. the closing ' of '%c')
-	rest := format[j:]
-	k := len(rest)
-	for k > 0 && (rest[k-1] == ' ' || rest[k-1] == ',') {
-		k--
+	sep := ""
+	for i, l := range leaves {
+		fl := fmtLeaf{cons: l.cons[ev]}
+		for _, st := range l.stmts {
+			es, ok := st.(*ast.ExprStmt)
+			if !ok {
+				return nil
+			}
+			call, ok := es.X.(*ast.CallExpr)
+			if !ok {
+				return nil
+			}
+			f2, ok := objOf(info, call.Fun).(*types.Func)
+			if !ok || f2.Pkg() == nil || f2.Pkg().Path() != "fmt" || f2.Name() != "Fprintf" || len(call.Args) != 3 {
+				return nil
+			}
+			format, ok := constStr(info, call.Args[1])
+			if !ok {
+				return nil
+			}
+			// the argument must be the element itself (possibly converted)
+			arg := ast.Unparen(call.Args[2])
+			if conv, ok := arg.(*ast.CallExpr); ok && len(conv.Args) == 1 {
+				arg = ast.Unparen(conv.Args[0])
+			}
+			if id, ok := arg.(*ast.Ident); !ok || info.Uses[id] != types.Object(ev) {
+				return nil
+			}
+			fl.formats = append(fl.formats, format)
+		}
+		if len(fl.formats) == 0 {
+			return nil
+		}
+		// every branch must end with the same separator
+		last := fl.formats[len(fl.formats)-1]
+		k := len(last)
+		for k > 0 && (last[k-1] == ' ' || last[k-1] == ',') {
+			k--
+		}
+		if i == 0 {
+			sep = last[k:]
+			lf.elemFmt = strings.Join(fl.formats, "")
+		} else if last[k:] != sep {
+			return nil
+		}
+		fl.formats[len(fl.formats)-1] = last[:k]
+		lf.leaves = append(lf.leaves, fl)
 	}
-	lf.elemFmt = format[:j] + rest[:k]
-	lf.sep = rest[k:]
-	lf.truncates = trunc == int64(len(lf.sep))
+	lf.sep = sep
+	lf.truncates = trunc == int64(len(sep))
 	return lf
+}
+
+func (lf *listFormatter) elem(v int64, asRune bool) string {
+	for _, l := range lf.leaves {
+		if l.cons.hasInt(v) {
+			var sb strings.Builder
+			for _, f := range l.formats {
+				if asRune {
+					sb.WriteString(fmt.Sprintf(f, rune(v)))
+				} else {
+					sb.WriteString(fmt.Sprintf(f, int(v)))
+				}
+			}
+			return sb.String()
+		}
+	}
+	return "<no branch>"
 }
 
 func (lf *listFormatter) standIn() func(any) string {
@@ -199,11 +253,11 @@ func (lf *listFormatter) standIn() func(any) string {
 		switch v := list.(type) {
 		case []int:
 			for _, x := range v {
-				parts = append(parts, fmt.Sprintf(lf.elemFmt, x))
+				parts = append(parts, lf.elem(int64(x), false))
 			}
 		case []rune:
 			for _, x := range v {
-				parts = append(parts, fmt.Sprintf(lf.elemFmt, x))
+				parts = append(parts, lf.elem(int64(x), true))
 			}
 		}
 		s := strings.Join(parts, lf.sep)
@@ -258,8 +312,8 @@ func witnesses() []*witness {
 	simple := &witness{name: "simple", why: "plain letters, identifier-like terminal names",
 		trans: []wTrans{{0, []wEdge{{[]rune{'a', 'b'}, 1}, {[]rune{'0'}, 2}}}, {1, []wEdge{{[]rune{'a'}, 1}}}},
 		finals: []wFinal{{"ID", []int{1}}, {"NUM", []int{2, 3}}}}
-	runes := &witness{name: "runes", why: "characters that need escaping in a Go rune literal: quote, backslash, newline, tab, NUL, non-ASCII",
-		trans: []wTrans{{0, []wEdge{{[]rune{'\'', '\\'}, 1}, {[]rune{'\n', '\t', 0, 'é', '"'}, 2}}}},
+	runes := &witness{name: "runes", why: "characters that need escaping in a Go rune literal: quote, backslash, newline, tab, NUL, DEL, Latin-1, BMP and supplementary-plane characters",
+		trans: []wTrans{{0, []wEdge{{[]rune{'\'', '\\'}, 1}, {[]rune{'\n', '\t', 0, 'é', '"', 0x2192, 0x1F600, 0x10FFFF, 0x7F, 0x80}, 2}}}},
 		finals: []wFinal{{"ID", []int{1}}, {"NUM", []int{2}}}}
 	names := &witness{name: "names", why: "terminal names that are not Go identifiers: operators, quotes, backslashes, keywords",
 		trans: []wTrans{{0, []wEdge{{[]rune{'a'}, 1}, {[]rune{'b'}, 2}, {[]rune{'c'}, 3}, {[]rune{'d'}, 4}}}},
